@@ -31,6 +31,9 @@ func init() {
 						if oneD && axis == 1 {
 							continue
 						}
+						if f == 0 && ((axis == 0 && s[0] == 1) || (axis == 1 && s[1] == 1)) {
+							continue // a 1-module axis cannot be undercut by a request >= 1
+						}
 						n++
 						variant := n % 3
 						deffill := (n / 3) % 2
